@@ -60,7 +60,9 @@ def count_nested(df, nested, by=None, join=True) -> NestedFrame:
         # this may be able to be sped up using tolists() as well
         # a missing nested value has no records: it gets an empty count instead of failing
         counts = df[nested].apply(
-            lambda x: x[by].value_counts(sort=False) if isinstance(x, pd.DataFrame) else pd.Series(dtype="int64")
+            lambda x: (
+                x[by].value_counts(sort=False) if isinstance(x, pd.DataFrame) else pd.Series(dtype="int64")
+            )
         )
         if not isinstance(counts, pd.DataFrame):  # a frame without rows: apply() returns an empty Series
             counts = pd.DataFrame(index=df.index)
